@@ -56,9 +56,22 @@ impl Command for CommandImpl {
             if start > end {
                 CommandResult::Error("Invalid arguments provided, range start value cannot be bigger than the range end value.".to_string())
             } else {
-                let array: Vec<_> = (start..end)
-                    .map(|value| StateValue::Number64Bit(value))
-                    .collect();
+                // reserve the memory up front so a size which cannot be provided is an error, not a panic
+                let size = end
+                    .checked_sub(start)
+                    .and_then(|size| usize::try_from(size).ok());
+                let mut array: Vec<StateValue> = Vec::new();
+                let reserved = match size {
+                    Some(size) => array.try_reserve_exact(size).is_ok(),
+                    None => false,
+                };
+                if !reserved {
+                    return CommandResult::Error(
+                        "Invalid arguments provided, range is too big.".to_string(),
+                    );
+                }
+
+                array.extend((start..end).map(|value| StateValue::Number64Bit(value)));
 
                 let key = put_handle(context.state, StateValue::List(array));
 
